@@ -227,6 +227,13 @@ CHECKS['C23'] = dict(
     note='Not decided: time bounds beyond progress; recursion when the produced tree is dropped; allocation size (tokens are proportional to input).',
     design='§4 C23')
 
+CHECKS['C22'] = dict(
+    technique='may-panic inventory over MIR of everything reachable from the temporal FromStr implementations, with dominance-based discharge rules (guarded index, find()-position slice bounds, is_ascii-guarded byte offsets) and a reviewed table (T5); Display/FromStr separator and field-count agreement (T8)',
+    text='Decides the totality clause: no construct reachable from Date/Time/Timestamp/Interval parsing can panic or overflow for any input '
+         'text (each is guarded, saturating, or individually reviewed), and the text shape Display writes is the shape FromStr accepts.',
+    note='Not decided: equality of the value after format-then-parse (runtime-value property; e.g. negative years).',
+    design='§4 C22')
+
 NOT_APPLICABLE = {
     'C01': 'Equality of result multisets with a reference engine is a value-level semantic equivalence over all queries and data; no structural necessary condition beyond those claimed under C06/C21/C24 exists and a static rule cannot stand in for an oracle.',
     'C03': 'Columnar-vs-row agreement is determined by computed values (empty input, NULL handling, sums); a rejected shape falls back safely, so no table-agreement obligation exists whose breach necessarily changes results.',
